@@ -181,11 +181,15 @@ def handleWire : Handler := fun op j =>
   | "wire_cuts" => some do
       -- for every cut position k = 0..len: (records yielded, end kind) of the model reader on the first k bytes
       let bs ← getHex j "hex"
-      let table ← (← getArr j "hashes").toList.mapM descOfJson
+      let table ← match j.getObjVal? "hashes" with
+        | .ok (Json.arr a) => a.toList.mapM descOfJson
+        | _ => pure []
+      let useSpec := match j.getObjVal? "hashes" with | .ok (Json.arr _) => false | _ => true
       let hashOf := fun (name : List Nat) (fields : List (List Nat × List Nat)) =>
-        match table.find? (fun d => d.name == name && d.fields == fields) with
-        | some d => d.hash
-        | none => 0
+        if useSpec then (Spec.descriptorHash name fields).getD 0
+        else match table.find? (fun d => d.name == name && d.fields == fields) with
+          | some d => d.hash
+          | none => 0
       let isRec : RV → Bool := fun r => match r with | .record _ _ => true | .grouped _ _ => true | _ => false
       let out := (List.range (bs.length + 1)).map fun k =>
         let (rs, e) := readAll hashOf (bs.take k)
